@@ -35,7 +35,10 @@ inductive Token where
   | op (o : Op)
   deriving Repr, DecidableEq
 
-/-- `utils::Span`: lines 1-based, columns 0-based in chars, `range` in bytes. -/
+namespace Lexer
+
+/-- `utils::Span`: lines 1-based, columns 0-based in chars, `range` in bytes.
+(In namespace `Tera.Lexer`: `Tera.Span` is the opaque span tag of Model/Instr.lean.) -/
 structure Span where
   startLine : Nat
   startCol : Nat
@@ -48,5 +51,7 @@ structure Span where
 /-- `Span::expand` (utils.rs:88-92). -/
 def Span.expand (self other : Span) : Span :=
   { self with endLine := other.endLine, endCol := other.endCol, rangeEnd := other.rangeEnd }
+
+end Lexer
 
 end Tera
